@@ -1,13 +1,22 @@
 """Sidecar contracts for matchingproblems/solver/solver.py: the glue between option parsing, the model and the two solving modes
 (C14 / C18 / C01 / C02: what Solver.solve hands to LP_Solver.run and what it stores in the model)."""
+from contracts.lp_solver import ULC
 M = 'solver:Solver.'
 OP = 'self.options_parser.'
 LISTS_OK = ('forall(r, 0, len(self.model.{0}), forall(q, 0, len(self.model.{0}[r]), self.model.{0}[r][q] != None and is_model_pair(self.model, self.model.{0}[r][q])))')
 NEEDS_LB = ('exists(a, 0, len(' + OP + 'optimisation_options), ' + OP + 'optimisation_options[a][0] == Optimisation_options.LOADMAXBAL or '
             + OP + 'optimisation_options[a][0] == Optimisation_options.LOADSUMBAL or ' + OP + 'optimisation_options[a][0] == Optimisation_options.MINCOSTLSB)')
 GR_PRE = ['sizes_ok(self.model)', 'pairs_ok(self.model)', 'has_vars(self.model.pairs)', 'self.model.num_lecturers >= 1',
-          ('stability-line-not-covered-here', 'not ' + OP + 'extra_constraints[Extra_constraints.STAB]')]
-GR_DEFS = {'code': ([], 'status_code(self.model.pulp_status)'),
+          ('stability-line-not-covered-here', 'not ' + OP + 'extra_constraints[Extra_constraints.STAB]'),
+          # the two solution facts Model.get_results needs (established by lemma C01/reported-matching-valid from Solver.solve's postcondition and T3)
+          ('optimal-solution-is-binary', 'implies(code() == 1, forall(i, 0, len(self.model.pairs), forall(c, 0, len(self.model.pairs[i]), solved(self.model.pairs[i][c].lp_var) == 0 or solved(self.model.pairs[i][c].lp_var) == 1)))'),
+          ('optimal-solution-respects-the-quotas', 'implies(code() == 1, forall(s, 0, self.model.num_students, solsum(self.model.pairs[s]) <= 1)'
+           ' and forall(j, 0, self.model.num_projects, (PCF() and XP(j) == 0) or (self.model.proj_lower_quotas[j] <= XP(j) and XP(j) <= self.model.proj_upper_quotas[j]))'
+           ' and forall(k, 0, self.model.num_lecturers, self.model.lec_lower_quotas[k] <= XL(k) and XL(k) <= self.model.lec_upper_quotas[k]))')]
+GR_DEFS = {'code': ([], 'status_code(self.model.pulp_status)'), 'PCF': ([], OP + 'instance_options[Instance_options.PC]'),
+           'X': (['i', 'c'], 'solved(self.model.pairs[i][c].lp_var)'),
+           'XP': (['j'], 'Sum(i, len(self.model.pairs), Sum(c, len(self.model.pairs[i]), ite(self.model.pairs[i][c].project_index == j, X(i, c), 0))) + Sum(c, 0, ite(self.model.pairs[len(self.model.pairs)][c].project_index == j, X(len(self.model.pairs), c), 0))'),
+           'XL': (['k'], 'Sum(i, len(self.model.pairs), Sum(c, len(self.model.pairs[i]), ite(self.model.pairs[i][c].lecturer_index == k, X(i, c), 0))) + Sum(c, 0, ite(self.model.pairs[len(self.model.pairs)][c].lecturer_index == k, X(len(self.model.pairs), c), 0))'),
            'timeout': ([], 'self.model.time_limit != None and (code() == 0 or self.model.time_after_solve - self.model.time_start > self.model.time_limit)'),
            'shows_matching': ([], "has_text(result, 'matching: ') or has_text(result, 'size: ') or has_text(result, 'cost: ') or has_text(result, 'profile: ') or has_text(result, 'Student_assignments')")}
 # the model's text is handed through unchanged: what Model.get_results guarantees holds of the getter's result
@@ -29,17 +38,25 @@ CONTRACTS = {
               ('each-criterion-at-most-once', 'forall(a, 0, len(' + OP + 'optimisation_options), forall(b, a + 1, len(' + OP + 'optimisation_options), ' + OP + 'optimisation_options[a][0] != ' + OP + 'optimisation_options[b][0]))'),
               ('criteria-are-members', 'forall(a, 0, len(' + OP + 'optimisation_options), 1 <= ' + OP + 'optimisation_options[a][0] and ' + OP + 'optimisation_options[a][0] <= 9)'),
               ('extras-are-lists-where-used', 'forall(a, 0, len(' + OP + 'optimisation_options), implies(' + ' or '.join(OP + 'optimisation_options[a][0] == Optimisation_options.' + c for c in ('GENEROUS', 'GREEDY', 'MINCOST', 'MINSQCOST', 'MINCOSTLSB')) + ', ' + OP + 'optimisation_options[a][1] != None))')],
-    defs={'BF': ([], OP + 'solver_options[Solver_options.BRUTEFORCE]')},
+    defs=dict(ULC, BF=([], OP + 'solver_options[Solver_options.BRUTEFORCE]'), PCF=([], OP + 'instance_options[Instance_options.PC]')),
     modifies=['self.solver', 'self.model.time_limit', 'self.model.time_after_model_creation', 'self.model.time_after_solve', 'self.model.pulp_status', 'self.model.info_string',
               'self.model.project_closures', 'self.model.abs_lec_diff', 'self.model.lec_overload', 'self.model.lec_underload', 'heap:lp_var', 'heap:alpha_var', 'heap:beta_var',
               'ghost:*'],
     ensures=[('time-limit-stored', 'self.model.time_limit == timeLimit'),
              ('lp-mode-every-pair-has-its-variable', 'implies(not BF(), has_vars(self.model.pairs))'),
+             # C01: whatever valuation satisfies the program that was solved gives every pair variable 0 or 1 and respects every quota
+             ('lp-mode-every-solution-of-the-program-is-binary-and-within-the-quotas', 'implies(not BF() and feas(), '
+              'forall(i, 0, self.model.num_students, forall(c, 0, len(self.model.pairs[i]), 0 <= nu(self.model.pairs[i][c].lp_var) and nu(self.model.pairs[i][c].lp_var) <= 1))'
+              ' and forall(i, 0, self.model.num_students, st_ok(i)) and forall(j, 0, self.model.num_projects, pr_ok(j, PCF()))'
+              ' and forall(k, 0, self.model.num_lecturers, le_ok(k))'
+              ' and implies(PCF(), forall(j, 0, self.model.num_projects, 0 <= nu(self.model.project_closures[j]) and nu(self.model.project_closures[j]) <= 1)))'),
              # LP mode: a fresh problem was built, solved at least once, and the model holds the status of the last solve
              ('lp-mode-stores-the-status-of-the-last-solve', 'implies(not BF(), solves() > old(solves()) and hist(solves() - 1) == status() and self.model.pulp_status == LpStatus[status()])'),
              ('lp-mode-only-the-last-solve-may-have-failed', 'implies(not BF(), forall(u, old(solves()), solves() - 1, hist(u) == 1))')]),
  # the thin getters: pure, and they hand the model's text through unchanged
- M + 'get_results_short': dict(pure=True, requires=GR_PRE, returns=('str', 'results'), defs=GR_DEFS, ensures=GR_ENS),
- M + 'get_results_long': dict(pure=True, requires=GR_PRE, returns=('str', 'results'), defs=GR_DEFS, ensures=GR_ENS),
+ M + 'get_results_short': dict(pure=True, requires=GR_PRE, returns=('str', 'results'), defs=GR_DEFS, ensures=GR_ENS,
+    call_ghost={'Model.get_results': {'pc': OP + 'instance_options[Instance_options.PC]'}}),
+ M + 'get_results_long': dict(pure=True, requires=GR_PRE, returns=('str', 'results'), defs=GR_DEFS, ensures=GR_ENS,
+    call_ghost={'Model.get_results': {'pc': OP + 'instance_options[Instance_options.PC]'}}),
  M + 'get_debug': dict(pure=True, requires=['sizes_ok(self.model)', 'pairs_ok(self.model)'], returns=('str', 'debug')),
 }
